@@ -105,6 +105,9 @@ def run(tier: str) -> int:
     for t in gen.alias_trees(rng, ck.budget(300, 4000)):
         cases.append(("tag", t, rng.choice([0, 1]), "\n"))
     ck.exhaustive_scopes.append({"scope": "aliasing stream: one string as HTML(), text, _repr_html_ and attribute values in one tree, lengths " + str(gen.ALIAS_LENGTHS), "exhaustive": False})
+    cases += gen.boundary_cases(rng)
+    ck.exhaustive_scopes.append({"scope": "width stream: fan-out / attribute count in " + str(gen.WIDTHS) + " x 5 child kinds x 3 parents; text lengths "
+                                          + str(gen.ALIAS_LENGTHS) + "; case variants / near misses of void and no-escape names", "exhaustive": True})
     subst.check_cases(ck, cases, {"a", "h"}, "an attribute value must be emitted as its per-character escape (HTML() verbatim)")
     # merging: the statement evaluated literally on the real code, for every entry point
     if ck.driver is not None:
@@ -170,7 +173,52 @@ def run(tier: str) -> int:
                     ck.py_violation(line, repr(got), f"merged attribute value written as {got!r}; the statement requires {want!r} "
                                     f"(each plain operand through the seven-character map, HTML() verbatim, joined by single spaces)",
                                     py=f"entry point {entry}; operands {combo!r}; key {key!r}")
-        ck.extra_cov["merge_cases"] = n_merge
+        # add_style has its own operand domain (every value ends with ';') and a `prepend` flag: the final value is
+        # the operands' emissions in the order the calls put them, joined by single spaces
+        sty_vals = ["a:b;", 'a"b;', "x'y;", "&;", "<>;", "l\r\nm;", ";", "&amp;;", "é ;", "u:url('x');"]
+        sty_pool = ([("p", v) for v in sty_vals] + [("h", v) for v in ("x;", "<b>;", 'q";', ";")]
+                    + [("s", v) for v in ("c:d;", 'a"b;', "&<;")])
+        sty_need = sorted({o[1] for o in sty_pool if o[0] in ("p", "s")} - set(esc))
+        esc.update(zip(sty_need, [subst.ds_(x) for x in ck.driver.run(["spec_escape T " + es(s2) for s2 in sty_need])]))
+        sty_combos = [(o,) for o in sty_pool] + list(itertools.product(sty_pool, repeat=2))
+        sty_combos += [tuple(rng.choice(sty_pool) for _ in range(3)) for _ in range(ck.budget(600, 6000))]
+        n_style = 0
+        for combo in sty_combos:
+            for flags in itertools.product((False, True), repeat=len(combo)) if len(combo) <= 2 else [tuple(rng.random() < 0.5 for _ in combo)]:
+                order = []
+                for o, pre in zip(combo, flags):
+                    order = [o] + order if pre else order + [o]
+                want = " ".join(emission(o) for o in order)
+                for init in ("add_style", "kw+add_style"):
+                    try:
+                        if init == "add_style":
+                            t = Tag("div")
+                            for o, pre in zip(combo, flags):
+                                t.add_style(real(o), prepend=pre)
+                        else:
+                            t = Tag("div", style=real(combo[0]))
+                            for o, pre in zip(combo[1:], flags[1:]):
+                                t.add_style(real(o), prepend=pre)
+                            order2 = [combo[0]]
+                            for o, pre in zip(combo[1:], flags[1:]):
+                                order2 = [o] + order2 if pre else order2 + [o]
+                            want = " ".join(emission(o) for o in order2)
+                        got = emitted_value(t.get_html_string(), "style")
+                    except Exception as e:  # noqa: BLE001
+                        got = f"\0raised {type(e).__name__}: {e}"
+                    n_style += 1
+                    ck.holds_checked += 1
+                    if any(o[0] in ("p", "s") and set(o[1]) & set(ALPHA[:-1]) for o in combo):
+                        ck.distinct_nontrivial += 1
+                    if got != want and not merged_ok(tuple(order if init == "add_style" else order2), got):
+                        ck.py_violation(f"merge {init} {combo!r} prepend={flags!r}", repr(got),
+                                        f"style value written as {got!r}; the statement requires {want!r} (each plain operand through the "
+                                        f"seven-character map, HTML() verbatim, joined by single spaces in call order / prepend order)",
+                                        py=f"entry point {init}; operands {combo!r}; prepend flags {flags!r}")
+        ck.extra_cov["add_style_cases"] = n_style
+        ck.exhaustive_scopes.append({"scope": "add_style: all operand lists of length <= 2 over 17 ';'-terminated values (plain / HTML() / str subclass, "
+                                              "with quotes, &, <, >, CR LF) x every prepend pattern x 2 starting states", "n": n_style, "exhaustive": True})
+        ck.extra_cov["merge_cases"] = n_merge + n_style
         # item assignment replaces and escapes
         for v in vals:
             t = Tag("div", title="old")
